@@ -4,7 +4,7 @@
    memory-control TLV.  Everything else - UID, static and dynamic lock bytes, OTP/CC, the TLVs in front of the
    NDEF TLV, reserved ranges, the memory behind the data area - is outside. *)
 From Coq Require Import ZArith List Bool.
-From NV Require Import Base.Result Base.Bytes Model.TlvMem Model.T2T Model.T1T Proofs.TlvLib Proofs.T2TFrame Proofs.T1T.
+From NV Require Import Base.Result Base.Bytes Base.PyPrims Model.TlvMem Model.T2T Model.T1T Gen.TlvFmtK Proofs.TlvLib Proofs.T2TFrame Proofs.T1T Bridge.TlvFmtK.
 Import ListNotations.
 Open Scope Z_scope.
 
@@ -82,3 +82,36 @@ Theorem C03_t1_vendor_format_refuted :
     get ex_t1_fmt 24 = 200 /\ get (apply_ws ex_t1_fmt (snd (t1_format_vendor 18 76 ex_t1_fmt (Some 0)))) 24 = 0.
 Proof. split; [vm_compute; reflexivity|]. eexists. split; [vm_compute; reflexivity|]. repeat split; vm_compute; reflexivity. Qed.
 Print Assumptions C03_t1_vendor_format_refuted.
+
+(* ---------------------------------------------------------------- tie: Type2Tag._format as it is in tt2.py on this run.
+   The translator (translate/kspec_tags_tlv.py) checks the method's control skeleton - length byte := 0, step over reserved
+   bytes, terminator only if the position is inside the data area, wipe loop bounded by the data area end and the skip set,
+   one synchronize - and regenerates its arithmetic expressions; the model's format phase is that skeleton over them. *)
+Theorem C03_bridge_format : forall L wipe c, ph_format L wipe c =
+  (do c1 <- upd c (gen_t2_fmt_len_addr (l_off L)) 0;
+   let a := gen_t2_fmt_term_from (l_off L) in
+   match term_pos (l_skip L) a (Z.to_nat (l_dend L - a)) with
+   | Some t =>
+     do c2 <- upd c1 t 254;
+     match wipe with
+     | Some w => wipe_loop (l_skip L) (gen_t2_fmt_wipe_from t) (Z.to_nat (l_dend L - gen_t2_fmt_wipe_from t)) (gen_t2_fmt_wipe_value w) c2
+     | None => Ok c2
+     end
+   | None => Ok c1
+   end).
+Proof. exact bridge_ph_format. Qed.
+Print Assumptions C03_bridge_format.
+Theorem C03_bridge_format_guard : forall L t b14,
+  gen_t2_fmt_size b14 = b14 * 8 + 16 /\
+  (term_pos (l_skip L) (gen_t2_fmt_term_from (l_off L)) (Z.to_nat (l_dend L - gen_t2_fmt_term_from (l_off L))) = Some t ->
+   gen_t2_fmt_term_guard t (l_dend L) = true /\ in_skip (l_skip L) t = false /\ gen_t2_fmt_term_from (l_off L) <= t).
+Proof. intros. split; [apply bridge_fmt_size | apply bridge_fmt_term_guard]. Qed.
+Print Assumptions C03_bridge_format_guard.
+
+(* non-vacuity: capacity 0, the empty NDEF TLV ends the data area, lock bytes directly behind: format leaves them alone *)
+Definition ex_t2_end : list Z :=
+  [1;2;3;136; 5;6;7;8; 12;72;0;0; 225;16;6;0; 253;44] ++ repeat 90 44 ++ [3;0; 17;34;51;68] ++ repeat 0 12.
+Example C03_t2_end_nonvacuous :
+  wf_layout ex_t2_end /\ t2_capacity ex_t2_end = Some 0 /\ fst (t2_format ex_t2_end (Some 255)) = Ok true /\
+  snd (t2_format ex_t2_end (Some 255)) = [] /\ get (apply_ws ex_t2_end (snd (t2_format ex_t2_end None))) 64 = 17.
+Proof. repeat split; vm_compute; reflexivity. Qed.
